@@ -73,6 +73,9 @@ pub struct Expect {
     pub failure_reason: Option<&'static str>,
     /// per attempt: is a retry expected after it?
     pub retry_after_attempt: Vec<bool>,
+    /// events of reports that cannot even be built (their leading app's id is not a legal header value, so the
+    /// X-Goog-Update-AppId header cannot be formed): never on the wire, each counted as lost
+    pub unbuildable_lost: usize,
 }
 
 #[derive(Clone, Debug)]
@@ -183,6 +186,9 @@ pub struct Flow {
     /// the same with the per-app state that goes with it (None: before anything was persisted by this
     /// incarnation, i.e. whatever the surviving storage holds)
     pub model_tuples: Vec<(u64, Option<i64>, Option<Vec<AppSnap>>)>,
+    /// checks (by index) after which the committed per-app records are not judged: their writes were made to
+    /// fail on purpose (set by the caller, never by the analysis)
+    pub skip_commit_judgement_after_checks: Vec<usize>,
 }
 
 pub fn retry_after(headers: &[(String, Vec<u8>)]) -> RetryAfter {
@@ -840,6 +846,18 @@ fn finish_check(c: &mut CheckView, st: &mut MState, setup: &Setup) {
         }
     }
     e.outcome = Some(outcome.clone());
+    {
+        let header_safe = |id: &str| id.bytes().all(|b| (0x20..0x7f).contains(&b) || b == b'\t');
+        let mut kept = vec![];
+        for rep in std::mem::take(&mut e.reports) {
+            if rep.apps.first().map(|a| !header_safe(&a.0)).unwrap_or(false) {
+                e.unbuildable_lost += if rep.what == "install-results" { rep.apps.iter().map(|a| a.3.len()).sum::<usize>().max(1) } else { 1 };
+            } else {
+                kept.push(rep);
+            }
+        }
+        e.reports = kept;
+    }
 
     // ---- advance the model state (only for checks that ran to their end)
     if c.complete && outcome != Outcome::Incomplete {
